@@ -205,6 +205,11 @@ def _accepted(sp, xml, outstanding=None):
     return [r.name_id.text if r.name_id is not None else None, sorted((k, sorted(v)) for k, v in (r.ava or {}).items())]
 
 
+def _idp_md_other():
+    """the IdP's metadata naming key `other` (only for the self-check of the forged probe)"""
+    return str(_entity(env.IDP_ID, "other", env.IDP_SSO))
+
+
 def _fresh_store_sp(http):
     sp = env.make_sp(sp={"want_response_signed": True})
     sp.metadata.http = http
@@ -421,8 +426,9 @@ def unit_sp_history(ctx, MODES, work):
         good1 = signed_both("r-h1", "subject-h1", "Hanna", "req-1")
         victim = signed_both("r-h2", "subject-h2", "Mallory", "req-2")
         forged = signed_both("r-h3", "subject-h3", "Eve", "req-3", key="other")
-        unsigned = resp.build(resp.default_response(id="r-h4", in_response_to="req-3", assertions=[
-            resp.default_assertion(id="a-r-h4", name_id="subject-h4", attributes={"urn:oid:2.5.4.42": ["Nina"]})]))
+        unsigned = signed_both("r-h4", "subject-h4", "Nina", "req-3", key=False)
+        if not _accepted(env.make_sp(), unsigned, {"req-3": "/three"}) or not _accepted(env.make_sp(idp_md=[_idp_md_other()]), forged, {"req-3": "/three"}):
+            raise RuntimeError("c20_hist self-check: the unsigned / forged probe responses are refused for reasons other than their signatures")
         good5 = signed_both("r-h5", "subject-h5", "Greta", "req-5")
 
         def enc_for(user, given):
